@@ -101,3 +101,10 @@ def _getattr3(ex, fv_, args, kwargs, fr, node):
 @handler("g.copy")
 def _gcopy(ex, fv_, args, kwargs, fr, node):
     return fv_.bound
+
+
+@handler("copy.deepcopy")
+def _deepcopy(ex, fv_, args, kwargs, fr, node):
+    """copy.deepcopy(x): a new object graph that shares nothing with the program's objects; modelled as an opaque new object
+    (pyhms only stores such copies in bookkeeping lists that no property reads)"""
+    return Val(Ty("ref", cls="$Opaque"), ex.new_obj("deepcopy", "$Opaque"))
